@@ -85,6 +85,30 @@ def gen_case(seed, tier):
             if prefix is not None:
                 op['prefix'] = prefix
             prog.append(op)
+        if rng.random() < 0.12:
+            # a long run of items that have expired at one end of a queue (more than a page of whatever the library pages by),
+            # live items behind them: pull and peek skip the expired ones and deliver the live
+            prefix = rng.choice(prefixes)
+            side = rng.choice(('front', 'back'))
+            burst = []
+            for i in range(rng.choice((100, 101, 130, 210))):
+                op = {'op': 'push', 'v': i, 'side': side, 'expire': 1}
+                if prefix is not None:
+                    op['prefix'] = prefix
+                burst.append(op)
+            burst.append({'op': 'advance', 'dt': 5})
+            for i in range(rng.randint(1, 3)):
+                op = {'op': 'push', 'v': 'live-%d' % i, 'side': rng.choice(('front', 'back'))}
+                if prefix is not None:
+                    op['prefix'] = prefix
+                burst.append(op)
+            for name in ('peek', 'pull', 'pull', 'pull', 'peek'):
+                op = {'op': name, 'side': side}
+                if prefix is not None:
+                    op['prefix'] = prefix
+                burst.append(op)
+            at = rng.randrange(len(prog) + 1)
+            prog[at:at] = burst
         return {'seed': seed, 'cfg': {'kind': 'seq', 'settings': settings, 'profile': 'queue'}, 'prog': prog}
     prefixes = rng.sample([None, 'a', 'a-5'], rng.choice((1, 2)))
     nclients = rng.choice((2, 3))
